@@ -77,6 +77,7 @@ type Family struct {
 	N      int
 	Run    func(w *W, idx int)
 	Serial bool // runs alone on the main goroutine (it manages its own goroutines)
+	NoCold bool // too heavy to be repeated in every cold process variant
 	Env    int  // > 0: this many freshly drawn cases of the family are re-run under every setting of the env-sweep family (env.go)
 }
 
